@@ -5,6 +5,7 @@ import (
 	"flag"
 	"fmt"
 	"os"
+	"strings"
 	"testing"
 
 	pb "github.com/openconfig/gnmi/proto/gnmi"
@@ -258,7 +259,9 @@ func TestReplay(t *testing.T) {
 	defer rec.Flush(true)
 	var sc Scenario
 	msg := ""
-	if err := json.Unmarshal(rf.Scenario, &sc); err != nil {
+	if strings.HasPrefix(rf.Part, "storm") {
+		msg = replayStorm(rf)
+	} else if err := json.Unmarshal(rf.Scenario, &sc); err != nil {
 		msg = "bad scenario: " + err.Error()
 	} else if _, err := runScenario(t, &sc); err != nil {
 		msg = err.Error()
